@@ -21,7 +21,8 @@ class Gen:
     """Random structured accfg programs in the form every accelerator lowering emits:
     full-field setups followed by launch/await, composed with scf.for / scf.if / calls / arithmetic."""
 
-    def __init__(self, rng: random.Random, full=True, depth=2, accs=None, launch_vals=True, prethread=False):
+    def __init__(self, rng: random.Random, full=True, depth=2, accs=None, launch_vals=True, prethread=False, carried=0.0):
+        self.carried = carried  # probability that a loop carries a data value / an if yields a data value
         self.r = rng
         self.n = 0
         self.full = full
@@ -75,19 +76,52 @@ class Gen:
                 out.append(f'{ind}func.call @g() {{"accfg.effects" = #accfg.effects<none>}} : () -> ()')
             elif k < 0.82 and depth > 0:
                 c = self.r.choice(["%c0", "%c1"])
-                out.append(f"{ind}scf.if {c} {{")
-                out += self.block(vals, depth - 1, ind + "  ", self.r.randint(0, 3), {})
-                out.append(f"{ind}}} else {{")
-                out += self.block(vals, depth - 1, ind + "  ", self.r.randint(0, 2), {})
-                out.append(f"{ind}}}")
+                if self.r.random() < self.carried:
+                    # the conditional yields a data value that later setups use
+                    r = self.fresh("r")
+                    out.append(f"{ind}{r} = scf.if {c} -> (i32) {{")
+                    out += self.block(vals, depth - 1, ind + "  ", self.r.randint(0, 3), {})
+                    out.append(f"{ind}  scf.yield {self.r.choice(vals)} : i32")
+                    out.append(f"{ind}}} else {{")
+                    out += self.block(vals, depth - 1, ind + "  ", self.r.randint(0, 2), {})
+                    out.append(f"{ind}  scf.yield {self.r.choice(vals)} : i32")
+                    out.append(f"{ind}}}")
+                    vals += [r, r]
+                else:
+                    out.append(f"{ind}scf.if {c} {{")
+                    out += self.block(vals, depth - 1, ind + "  ", self.r.randint(0, 3), {})
+                    out.append(f"{ind}}} else {{")
+                    out += self.block(vals, depth - 1, ind + "  ", self.r.randint(0, 2), {})
+                    out.append(f"{ind}}}")
                 cur.clear()
             elif depth > 0:
                 i, ii = self.fresh("i"), self.fresh()
                 b = self.r.randrange(NBOUNDS)
-                out.append(f"{ind}scf.for {i} = %lb{b} to %ub{b} step %st{b} {{")
-                out.append(f"{ind}  {ii} = arith.index_cast {i} : index to i32")
-                out += self.block(vals + [ii], depth - 1, ind + "  ", self.r.randint(1, 4), {})
-                out.append(f"{ind}}}")
+                if self.r.random() < self.carried:
+                    # loop-carried data values (running pointers) feeding the setups of the body and of the code after the loop
+                    n = self.r.choice([1, 2, 2])
+                    ps = [self.fresh("p") for _ in range(n)]
+                    rs = [self.fresh("r") for _ in range(n)]
+                    inits = [self.r.choice(vals) for _ in range(n)]
+                    ia = ", ".join(f"{p} = {x}" for p, x in zip(ps, inits))
+                    tys = ", ".join(["i32"] * n)
+                    out.append(f"{ind}{', '.join(rs)} = scf.for {i} = %lb{b} to %ub{b} step %st{b} iter_args({ia}) -> ({tys}) {{")
+                    out.append(f"{ind}  {ii} = arith.index_cast {i} : index to i32")
+                    inner = vals + [ii] + ps + ps
+                    out += self.block(inner, depth - 1, ind + "  ", self.r.randint(1, 4), {})
+                    nxt = []
+                    for p in ps:
+                        v = self.fresh()
+                        out.append(f"{ind}  {v} = arith.addi {p}, {self.r.choice(vals + [ii])} : i32")
+                        nxt.append(v)
+                    out.append(f"{ind}  scf.yield {', '.join(nxt)} : {tys}")
+                    out.append(f"{ind}}}")
+                    vals += rs + rs
+                else:
+                    out.append(f"{ind}scf.for {i} = %lb{b} to %ub{b} step %st{b} {{")
+                    out.append(f"{ind}  {ii} = arith.index_cast {i} : index to i32")
+                    out += self.block(vals + [ii], depth - 1, ind + "  ", self.r.randint(1, 4), {})
+                    out.append(f"{ind}}}")
                 cur.clear()
         return out
 
